@@ -35,4 +35,26 @@ DesignInv == \A c \in Cases :
    LET defaulted == c.dk = "VALUE" /\ c.d \notin c.w
    IN  /\ Count(c) = Cardinality(c.w) + (IF defaulted THEN 1 ELSE 0)
        /\ (defaulted <=> <<<<100, 118>>, FALSE>> \in Pairs(c))
+
+(***************************************************************************)
+(* The same for ELEMENT type names: an attribute-list declaration belongs   *)
+(* to the element type whose (qualified) name it gives.  Three children     *)
+(* a:x, b:x and x of the document element r; any non-empty subset of the    *)
+(* three types has an ATTLIST, each with a default of its own for the       *)
+(* attribute d.  Every child has exactly the defaults of ITS type.          *)
+(***************************************************************************)
+ElNames == <<<<97, 58, 120>>, <<98, 58, 120>>, <<120>>>>          \* a:x  b:x  x
+ElDefault(k) == <<CI(100), CI(48 + k)>>                            \* "d1" "d2" "d3"
+ND == <<100>>                                                      \* the attribute d
+EDoc(D) ==
+  [ents |-> <<>>,
+   attlists |-> [j \in 1..Cardinality(D) |->
+                   LET k == CHOOSE k \in D : Cardinality({ m \in D : m < k }) = j - 1
+                   IN  [el |-> ElNames[k], defs |-> << [n |-> ND, ty |-> "CDATA", dk |-> "VALUE", dv |-> ElDefault(k)] >>]],
+   els |-> << [el |-> NR, written |-> <<>>] >> \o [k \in 1..3 |-> [el |-> ElNames[k], written |-> <<>>]]]
+ECases == (SUBSET (1..3)) \ {{}}
+\* child k is els[k + 1]
+EPairs(D, k) == { <<x.v, x.spec>> : x \in Expected(EDoc(D), k + 1) }
+DesignInvE == \A D \in ECases : \A k \in 1..3 :
+   EPairs(D, k) = IF k \in D THEN { <<<<100, 48 + k>>, FALSE>> } ELSE {}
 =============================================================================
